@@ -91,6 +91,24 @@ Proof.
   - constructor; auto. rewrite E1. apply (G_keys c d0 sN HG).
 Qed.
 
+(* Date scheme, partial: what an append-mode restart recovers (the all-history invariant with the
+   unrecovered older files is not proved) *)
+Theorem rot_append_restart_date_thm : c_scheme c = SDate -> forall rm' st,
+  8 <= N.of_nat (length (strf 0 (st / NS))) ->
+  (forall f, In f (tl (dq sN)) -> dec (fidx f) <> strf 0 (st / NS)) ->
+  let s' := construct strf rtm c false rm' st (fs sN) in
+  fs s' = fs sN /\
+  dq s' = mk_live c st :: map forget (filter (today_of (strf 0 (st / NS))) (tl (dq sN))).
+Proof.
+  intros Hd rm' st L8 Hdi. pose proof sN_good as HG.
+  pose proof (F_inv c d0 sN (G_full c d0 sN HG)) as HI.
+  destruct (inv_live_exists c sN HI) as [cl G].
+  cbn zeta. rewrite construct_state. cbn zeta. rewrite Hd. cbn [andb negb fs dq]. rewrite andb_false_r.
+  assert (FS : fs_open false (live_path c) (fs sN) = fs sN) by (unfold fs_open; rewrite G; auto).
+  rewrite FS. split; auto.
+  rewrite (recover_date c Hd _ sN HI (G_keys c d0 sN HG) L8 Hdi). reflexivity.
+Qed.
+
 Theorem rot_names_index_thm : is_index c = true ->
   StronglySorted (fun a b => fidx a < fidx b) (dq sN) /\
   Forall (fun f => fname f = [c_stem c; dec (fidx f); c_ext c]) (tl (dq sN)).
